@@ -72,6 +72,11 @@ def pyeval(n, leaves):
     return getattr(qv.sat, n["g"])(*args)
 
 
+def twin_ok(case):
+    # also run under the second label decoding (common.twin_labels); Matrix kinds index by int
+    return C.no_matrix(case)
+
+
 def run_impl(case):
     leaves = []
     try:
